@@ -200,19 +200,26 @@ AWKWARD_TAILS = [b"\n", b"\r\n", b"\r", b" ", b"\t", b"\0", b"\x0b", b"\x0c", b"
 
 
 def awkward_short_cases(rnd, per_tail=2):
-    """short all-digit / all-alphanumeric payloads with one odd character glued to either end (trailing newline of `echo`,
-    signs, underscores, whitespace, non-ASCII digits): where 'looks numeric' tests written with regexes, int() or
-    str.isdigit() differ from 'every byte is an ASCII digit'"""
-    out = []
+    """short all-digit / all-alphanumeric payloads with one odd character glued to either end or the middle (trailing newline of
+    `echo`, signs, underscores, whitespace, non-ASCII digits): where 'looks numeric' tests written with regexes, int() or
+    str.isdigit() differ from 'every byte is an ASCII digit'.  The first block (tag awkward-core) is the same for every seed:
+    every tail as a SUFFIX and as a PREFIX of a 3-character and of a just-below-threshold core, default threshold."""
+    core_cases, out = [], []
     for t in AWKWARD_TAILS:
+        for kind in ("digits", "alnum"):
+            for n in (3, max(1, 20 - len(t))):
+                core = payload(rnd, kind, n)
+                for data in (core + t, t + core):
+                    core_cases.append(dict(version=None, level=rnd.randrange(4), mask=rnd.choice([None, 0, 3, 7]), fit=True,
+                                           calls=[(data, 20)], tag="awkward-core"))
         for k in range(per_tail):
             for kind in ("digits", "alnum"):
-                core = payload(rnd, kind, rnd.choice([1, 2, 3, 5, 8, 13, 19, 20 - len(t), 21, 40]))
-                data = rnd.choice([core + t, t + core, core + t, core[:len(core) // 2] + t + core[len(core) // 2:]])
-                for opt in (20, 0):
+                core = payload(rnd, kind, rnd.choice([1, 2, 5, 8, 13, 19, 21, 40]))
+                data = rnd.choice([core + t, t + core, core[:len(core) // 2] + t + core[len(core) // 2:]])
+                for opt in (20, 0, 4):
                     out.append(dict(version=None, level=rnd.randrange(4), mask=rnd.choice([None, 0, 3, 7]), fit=True,
                                     calls=[(data, opt)], tag="awkward-short"))
-    return out
+    return core_cases + out
 
 
 TEXTS = ["héllo wörld", "\u0661\u0662\u0663", "\uff11\uff12\uff13\uff14", "12\u00b2", "\u0663\u0664\u0665" * 5, "ΑΒΓ 123", "ＡＢＣ", "١٢٣٤٥٦٧٨٩٠" * 3,
